@@ -37,7 +37,11 @@ CLAIMED = {
     'C05': dict(text='Proved about the model of ops.py: C05_calls_in_order, C05_calls_prefix, C05_prefix_failure_before_calls, '
                      'C05_inplace_returns_tree. Argument alignment (sub-tree at the leaf path) rests on flatten_up_to (C07) and is checked by the oracle.' + PARTIAL,
                 technique='Lean 4 proof about the ops.py model + correspondence', ref='6 C05'),
-    'C06': dict(text='Proved: C06_eq_hash (== implies equal hash input for every field selection determined by ==), C06_symm, C06_refl; generated '
+    'C06': dict(text='Proved: C06_eq_iff (for all well-formed shapes: == on the post-order encodings is True exactly when the shapes are equal - same '
+                     'kinds, arities, classes / metadata / keys in order / maxlen / factory, identical registrations - none_is_leaf agrees and the '
+                     'namespaces are compatible; custom entries and remembered key insertion order do not take part), C06_eq_of_flatten (treespecs '
+                     'made by flatten are such encodings), C06_shape_eq_refl / _symm / _trans and C06_trans_same_ns (equivalence relation), '
+                     'C06_eq_counts; C06_eq_hash (== implies equal hash input for every field selection determined by ==), C06_symm, C06_refl; generated '
                      'obligations C06_hashSpecFields_ok / C06_hashNodeFields_ok / C06_eqFields_ok re-check hashing.cpp and richcomparison.cpp on every run.' + PARTIAL,
                 technique='Lean 4 proof with obligations regenerated from the source (translator) + correspondence', ref='6 C06'),
     'C07': dict(text='Proved for all well-formed shapes (STree, Model/STree.lean) of any size and nesting: C07_is_prefix_refines - the array walk of '
@@ -45,11 +49,16 @@ CLAIMED = {
                      '(cutSegments / reorderSegments), decides exactly the tree-level prefix relation STree.prefixB (children of dict kinds paired by '
                      'key), strict form = some leaf covers an internal node; C07_is_prefix_iff, C07_is_prefix_strict_iff, C07_is_prefix_total (never '
                      'InternalError), C07_prefix_not_larger; plus C07_guards, C07_leaf_is_prefix, C07_flatten_up_to_leaf, '
-                     'C07_kind_mismatch_value_error, C07_dict_keyset_mismatch. That every node array of the real engine is such an encoding is checked '
+                     'C07_kind_mismatch_value_error, C07_dict_keyset_mismatch; C07_is_prefix_of_flatten (flatten produces such encodings for every '
+                     'well-formed tree, configuration, predicate and registry: Lemmas/EncFlatten.lean). That every node array of the real engine is such an encoding is checked '
                      'by the correspondence stream ((is_enc ...) lines). Agreement of flatten_up_to and prefix_errors with is_prefix, and the order laws: '
                      'array-level model through correspondence plus an independent reference prefix relation in the oracle.' + PARTIAL,
                 technique='Lean 4 proof (refinement of the array walk to a tree-level relation, mutual structural induction) + correspondence + reference oracle', ref='6 C07'),
-    'C08': dict(text='Proved: C08_normIndex_none/some (Python index semantics), C08_child_index_error, C08_entry_of_entries, C08_one_level, '
+    'C08': dict(text='Proved for all shapes, any pattern of sibling sub-tree sizes: C08_children_refines (children() slices the post-order array by '
+                     'num_nodes offsets into exactly the child encodings, in order), C08_child_refines (child(i) = i-th child under Python index '
+                     'semantics, IndexError exactly outside [-n, n)), C08_child_of_children, C08_counts_sum, C08_compose_refines (compose = '
+                     'substitution of the inner shape for every leaf; result well-formed; leaves multiply), C08_compose_leaf / _leaf_right; '
+                     'C08_normIndex_none/some (Python index semantics), C08_child_index_error, C08_entry_of_entries, C08_one_level, '
                      'C08_compose_counts, C08_compose_rejects, C08_transform_none, C08_make_leaf_none, C08_repr_affixes. children()/constructors/'
                      'transform rebuild laws: correspondence (5000+ lines per run) + oracle.' + PARTIAL,
                 technique='Lean 4 proof + correspondence', ref='6 C08'),
